@@ -71,7 +71,7 @@ def loopOptimize (s : LoopSt) : Option LoopSt :=
 def loopReplay (maxIter : Int) (fuel : Nat) (ms os : List Bool) : String :=
   let mi : Option Nat := if maxIter < 0 then none else some maxIter.toNat
   match Glb.loopG loopOptimize (fun s => s.ms.head?.getD true)
-      (fun s => { s with ms := s.ms.tail, log := "R" :: s.log }) mi fuel 1 { ms := ms, os := os, log := [] } with
+      (fun s => some { s with ms := s.ms.tail, log := "R" :: s.log }) mi fuel 1 { ms := ms, os := os, log := [] } with
   | none => "none"
   | some s =>
     let ev := if s.log.isEmpty then "-" else String.intercalate "," s.log.reverse
